@@ -288,6 +288,8 @@ def bounded_post(self, x, n, r, R, nmin, pmax, rto, rte, inf_signed, has_neg_zer
                       and r._real._exp == self.inf_value._real._exp
                       and r._real._c == self.inf_value._real._c and r._isnan == self.inf_value._isnan
                       and r._isinf == self.inf_value._isinf) if (inf and not self.enable_inf and self.inf_value is not None) else True,
+        # a NaN / an infinity the format has is not a changed value: no flags
+        'special_flags': implies((nan and self.enable_nan) or (inf and self.enable_inf), flags_clear(r._real)),
         # K2 zero keeps its sign (+0 where the format has no -0), no flags
         'zero': implies(fin and xr._c == 0, fl_finite(r) and r._real._c == 0
                         and r._real._s == (xr._s and has_neg_zero) and flags_clear(r._real)),
